@@ -204,7 +204,7 @@ struct HStack {
         seqx::NoCount nc;  // the "stack" space itself (alloca in real use) is not a heap allocation of the policy
         sts.emplace_back(new Spy<cocls::stack_storage>(state));
         std::size_t want = *sts.back();
-        bufs.emplace_back(new std::vector<char>(want ? want : 1));
+        bufs.emplace_back(new std::vector<char>(want ? want : 1, (char)0xFF));  // alloca memory is whatever the stack held before
         *static_cast<cocls::stack_storage *>(sts.back().get()) = bufs.back()->data();
         return *sts.back();
     }
@@ -422,7 +422,7 @@ static void stack_presize_case(seqx::Runner &R, int cls, int delta) {
                 s.reset(new Slot());
                 st.reset(new Spy<cocls::stack_storage>(state));
                 want = *st;
-                buf.reset(new std::vector<char>(want ? want : 1));
+                buf.reset(new std::vector<char>(want ? want : 1, (char)0xFF));  // a dirty stack, as alloca gives
                 *static_cast<cocls::stack_storage *>(st.get()) = buf->data();
             }
             s->gate_p = s->gate.get_promise();
